@@ -611,7 +611,9 @@ func nonsenseCatalogue(c *core.Ctx) {
 	// keys without a scale
 	var noScale []string
 	for _, k := range theory.AllKeySpellings() {
-		if !theory.IsSupported(k) {
+		// keys that cannot have a scale with single accidentals (more than 7 sharps or flats); A#m and Abm
+		// (7 sharps / 7 flats) are not in today's table but could legitimately be added, so they are not nonsense
+		if kk, err := theory.ParseKey(k); err == nil && !theory.IsSupported(k) && (kk.Signature() > 7 || kk.Signature() < -7) {
 			noScale = append(noScale, k)
 		}
 	}
